@@ -19,7 +19,7 @@ CLAIM = dict(cat="proof", design="§3 C01, Appendix A.7, §8 O7",
         "Second tie (translator): tools/c01_guards.py regenerates the worker-loop condition and the termination test of BOTH simulations from the current source text into C01_Gen.v on every run; theorem "
         "C01_source_guards_are_model_guards proves that the transition function with the regenerated conditions is the proved one (a changed condition breaks the proof; a small-scope search then names the model state "
         "in which the changed condition ends the iteration early, never ends it, or drops a fetched task). Further ties: identity-level correspondence of MemorySpace::add_photons with the model's append_active (tagged packets: no loss, no duplication on overflow); source-side model (DistributedPhotonSource split over sources/copies/remainder draws, batch loops) proved exact and compared with the real class; quick configurations include an odd request shared by a discrete and a continuous source and a continuous source with fewer batches than threads; non-terminating runs are bounded (60 s, 1.5 GB trace).",
-   note="Task bodies are atomic steps of the model; this rests on the lock discipline (subgrid state touched only under the subgrid's dependency lock) and on C08 for the containers, and is checked dynamically by the trace "
+   note="Per traversal task the hook reports the outcome of interact for every packet: stored for direction i iff the subgrid has a neighbour there (re-emission for i = 0), terminated iff the rest (oracle on every traced run). Task bodies are atomic steps of the model; this rests on the lock discipline (subgrid state touched only under the subgrid's dependency lock) and on C08 for the containers, and is checked dynamically by the trace "
         "validation (an interleaving that is not a run of the model is reported). Liveness (the iteration eventually ends) is not proved: it needs fairness of the OpenMP threads; only safety and the clean-exit property are. "
         "Photon physics inside a traversal is an oracle (C02). Pool/queue capacities are unbounded in the model (the property assumes they are not exhausted). Extraction uses ExtrOcamlBasic + ExtrOcamlNatInt (nat as OCaml int). "
         "Trace runs use the guarded step lock of the hooks (CMI_VERIF_SERIALIZE: an operation and the event that logs it are atomic, the interleaving of steps is still the OS scheduler's); the same configurations are also run "
